@@ -19,6 +19,8 @@ import (
 	"path/filepath"
 	"runtime"
 	"strings"
+	"sync"
+	"sync/atomic"
 	"testing"
 	"time"
 
@@ -310,6 +312,92 @@ func TestC12(t *testing.T) {
 
 	// real sockets: peers that close early
 	realSockets(t, r, run)
+
+	if r.Violations() == 0 {
+		concurrentAttempts(t, r)
+	}
+}
+
+// concurrentAttempts: the same attempts (clean, cancelled, failing) while
+// writers take the metrics' write locks the way running programs and the GC
+// do. Every attempt and every write must complete; a stall is judged on the
+// goroutine dump (who waits on which lock), see ev.Guard.
+func concurrentAttempts(t *testing.T, r *ev.Run) {
+	st, ms := buildStore(3, 3, nil)
+	e, err := exporter.New(context.Background(), st, exporter.Hostname("h"), exporter.DisableExport(), exporter.EmitTimestamp())
+	if err != nil {
+		t.Fatal(err)
+	}
+	defer e.Stop()
+	nExp, nWr := ev.Pick(400, 4000), ev.Pick(20000, 200000)
+	var attempts, writes atomic.Int64
+	r.Guard("export attempts concurrent with write-locking updates", func() {
+		var wg sync.WaitGroup
+		for w := 0; w < 3; w++ {
+			w := w
+			wg.Add(1)
+			go func() {
+				defer wg.Done()
+				for i := 0; i < nWr; i++ {
+					m := ms[(i+w)%len(ms)]
+					lab := make([]string, len(m.Keys))
+					for k := range lab {
+						lab[k] = fmt.Sprintf("w%d_%d", w, i%7)
+					}
+					switch i % 4 {
+					case 0, 1:
+						if d, err := m.GetDatum(lab...); err == nil && m.Type == metrics.Int {
+							datum.IncIntBy(d, 1, time.Unix(int64(i), 0))
+						}
+					case 2:
+						_ = m.RemoveDatum(lab...)
+					case 3:
+						if i%64 == 3 {
+							_ = st.Gc()
+						} else {
+							_ = m.ExpireDatum(time.Hour, lab...)
+						}
+					}
+					writes.Add(1)
+				}
+			}()
+		}
+		for x := 0; x < 6; x++ {
+			x := x
+			wg.Add(1)
+			go func() {
+				defer wg.Done()
+				for i := 0; i < nExp; i++ {
+					switch (i + x) % 6 {
+					case 0:
+						var buf bytes.Buffer
+						_ = e.Write(&buf)
+					case 1, 2, 3:
+						h := []string{"varz", "graphite", "json"}[(i+x)%6-1]
+						ctx, cancel := context.WithCancel(context.Background())
+						w := &cancelWriter{ResponseRecorder: httptest.NewRecorder(), k: 1 + i%5, cancel: cancel, fail: i%2 == 0}
+						if i%3 == 0 {
+							w.k = 1 << 30 // clean attempt
+						}
+						serve(e, h, w, httptest.NewRequest("GET", "/"+h, nil).WithContext(ctx))
+						cancel()
+					case 4:
+						_ = e.WriteSocketMetricsForVerif(&failWriter{k: 1 + i%4}, "statsd")
+					case 5:
+						_ = e.WriteSocketMetricsForVerif(&failWriter{}, "collectd")
+					}
+					attempts.Add(1)
+				}
+			}()
+		}
+		wg.Wait()
+	})
+	r.Eval(1)
+	r.Count("concurrent_export_attempts_completed", int(attempts.Load()))
+	r.Count("concurrent_write_locking_updates_completed", int(writes.Load()))
+	f := fault{Exporter: "all", Kind: "concurrent-with-writers", M: 3, L: 3}
+	r.Distinct(fmt.Sprintf("%+v", f))
+	judge(r, f, st, ms)
 }
 
 func serve(e *exporter.Exporter, h string, w http.ResponseWriter, req *http.Request) {
